@@ -215,6 +215,26 @@ def tr_serialise(fn: ast.FunctionDef, inner: ast.FunctionDef):
     _file, ind, ob, cb, start = [x.id for x in call.args]
     if ind != 'indent' or start != 'start_indent':
         raise _err(call, 'indent/start_indent are not passed through unchanged')
+    # the returned string is what was written: `if file is None: file = buffer = io.StringIO()` ... `_serialise(file, ...)`
+    # ... `if buffer is not None: return buffer.getvalue()` (the text model describes the writes to `file`)
+    file_param = params[1] if len(params) > 1 else None
+    if _file != file_param:
+        raise _err(call, 'the file parameter is not what _serialise writes to')
+    bufs = [n for n in ast.walk(fn) if isinstance(n, ast.Assign) and isinstance(n.value, ast.Call)
+            and isinstance(n.value.func, ast.Attribute) and n.value.func.attr == 'StringIO' and not n.value.args]
+    if len(bufs) != 1 or len(bufs[0].targets) != 2 or not all(isinstance(t, ast.Name) for t in bufs[0].targets) \
+            or file_param not in [t.id for t in bufs[0].targets]:
+        raise _err(fn, '`file = buffer = io.StringIO()` not recognised')
+    buf_name = next(t.id for t in bufs[0].targets if t.id != file_param)
+    guard = [n for n in ast.walk(fn) if isinstance(n, ast.If) and bufs[0] in n.body]
+    if len(guard) != 1 or ast.dump(guard[0].test) != ast.dump(ast.parse(f'{file_param} is None', mode='eval').body):
+        raise _err(fn, 'the StringIO buffer is not created exactly when file is None')
+    rets = [n for n in ast.walk(fn) if isinstance(n, ast.Return) and n.value is not None
+            and not (isinstance(n.value, ast.Constant) and n.value.value is None)]
+    if len(rets) != 1 or ast.dump(rets[0].value) != ast.dump(ast.parse(f'{buf_name}.getvalue()', mode='eval').body):
+        raise _err(fn, 'serialise() does not return buffer.getvalue()')
+    if rets[0].lineno < call.lineno:
+        raise _err(fn, 'serialise() returns before writing')
     # no rebinding of the option names
     brace_if = None
     for n in ast.walk(fn):
@@ -562,6 +582,34 @@ def tr_parse(fn: ast.FunctionDef) -> dict:
     return out
 
 
+READ_FLAG_REF = """
+flag_inv = flag_val[:1] == '!'
+if flag_inv:
+    flag_val = flag_val[1:]
+flag_val = flag_val.casefold()
+try:
+    flag_result = bool(flags[flag_val])
+except KeyError:
+    flag_result = FLAGS_DEFAULT.get(flag_val, False)
+return flag_inv is not flag_result
+"""
+
+
+def tr_read_flag(tree: ast.Module) -> None:
+    """_read_flag(flags, flag_val) must have the shape that KV/KvFlags.v read_flag mirrors (fail closed)."""
+    fn = next((n for n in tree.body if isinstance(n, ast.FunctionDef) and n.name == '_read_flag'), None)
+    if fn is None:
+        raise TranslateError('keyvalues.py: _read_flag not found')
+    if [a.arg for a in fn.args.args] != ['flags', 'flag_val'] or fn.args.kwonlyargs or fn.args.vararg or fn.args.kwarg:
+        raise _err(fn, '_read_flag(flags, flag_val) expected')
+    got = ast.dump(ast.Module(body=_strip_doc(fn.body), type_ignores=[]))
+    ref_fn = ast.parse('def f():\n' + ''.join('    ' + ln + '\n' for ln in READ_FLAG_REF.strip().splitlines())).body[0]
+    want = ast.dump(ast.Module(body=ref_fn.body, type_ignores=[]))
+    if got != want:
+        raise _err(fn, '_read_flag has an unexpected shape (KV/KvFlags.v mirrors: strip one leading "!", casefold, '
+                       'flags[...] else FLAGS_DEFAULT.get(..., False), inverted is-not)')
+
+
 def coq_brk(chars) -> str:
     return 'BTOther' if chars is None else f'BTChars {coq_chars("".join(chars))}'
 
@@ -647,6 +695,7 @@ def translate() -> tuple[str, dict]:
     yields, s3 = tr_export(f_exp)
     xs = tr_export_struct(f_exp)
     psites = tr_parse(f_parse)
+    tr_read_flag(tree)
     stores, muts, info = [], [], []
     for fn, sn in ((f_ser, s1), (f_in, s2), (f_exp, s3)):
         a, b, c = census(fn, sn)
